@@ -251,8 +251,11 @@ func decryptSymmetricAEAD(aead cipher.AEAD, ciphertext []byte, nonce []byte, tag
 	}
 
 	// Add the tag at the end of the ciphertext
-	ciphertext = append(ciphertext, tag...)
-	return aead.Open(nil, nonce, ciphertext, associatedData)
+	// This uses a new slice, as appending in place could write into the spare capacity of the caller's buffer
+	ciphertextAndTag := make([]byte, len(ciphertext), len(ciphertext)+len(tag))
+	copy(ciphertextAndTag, ciphertext)
+	ciphertextAndTag = append(ciphertextAndTag, tag...)
+	return aead.Open(nil, nonce, ciphertextAndTag, associatedData)
 }
 
 func encryptSymmetricAESKW(plaintext []byte, algorithm string, key []byte) (ciphertext []byte, err error) {
@@ -311,8 +314,11 @@ func decryptSymmetricChaCha20Poly1305(ciphertext []byte, algorithm string, key [
 	}
 
 	// Add the tag at the end of the ciphertext
-	ciphertext = append(ciphertext, tag...)
-	return aead.Open(nil, nonce, ciphertext, associatedData)
+	// This uses a new slice, as appending in place could write into the spare capacity of the caller's buffer
+	ciphertextAndTag := make([]byte, len(ciphertext), len(ciphertext)+len(tag))
+	copy(ciphertextAndTag, ciphertext)
+	ciphertextAndTag = append(ciphertextAndTag, tag...)
+	return aead.Open(nil, nonce, ciphertextAndTag, associatedData)
 }
 
 func getChaCha20Poly1305Cipher(algorithm string, key []byte, nonce []byte) (aead cipher.AEAD, err error) {
